@@ -99,6 +99,13 @@ func TestC10(t *testing.T) {
 				rec.Class("impl:own")
 			}
 			rec.Class(fmt.Sprintf("inherited-condition-interfaces:%d", min(inherited, 4)))
+			if cp.ImplHasNestedFunction(cc.call.Fn) {
+				rec.Class("body:nested-function")
+				// every body ends in (or takes early) an explicit return
+				if want.Fail == vir.FailPost {
+					rec.Class("body:nested-function+explicit-return+failing-post")
+				}
+			}
 			if rec.WantSample(cc.class) {
 				rec.Sample(cc.class, map[string]any{"source": src, "expected": want.String(), "falsified": cc.oneHot})
 			}
